@@ -129,7 +129,9 @@ impl Ids {
 pub const SMALL: i64 = 15;
 pub const BIG: i64 = 50;
 pub const FUND: i64 = 120;
-pub const LOCK_AMT: i64 = 100;
+pub const LOCK_AMT: i64 = 101; // not divisible by the duration: the lock formula rounds up
+/// after two of the four lock epochs 51 of 101 stay locked: exactly 69 of the 120 may leave
+pub const EDGE: i64 = 69;
 pub const LOCK_DUR: i64 = 4;
 
 /// (to, value, method, params) of a transaction spec
@@ -653,6 +655,8 @@ impl Scenario for Multisig {
             let mut specs = vec![
                 TxSpec::Send(SMALL),
                 TxSpec::Send(BIG),
+                TxSpec::Send(EDGE),
+                TxSpec::Send(EDGE + 1),
                 TxSpec::AddSigner(Who::Z, false),
                 TxSpec::AddSigner(Who::Z, true),
                 TxSpec::AddSigner(Who::X, false),
@@ -813,7 +817,7 @@ impl Scenario for Multisig {
 
     fn describe(&self) -> serde_json::Value {
         json!({"policy": "MAINNET", "signers": ["S1","S2","S3"], "outsider": "Z", "fund": FUND,
-               "lock": {"amount": LOCK_AMT, "duration": LOCK_DUR}, "send_values": [SMALL, BIG, -1],
+               "lock": {"amount": LOCK_AMT, "duration": LOCK_DUR}, "send_values": [SMALL, BIG, EDGE, EDGE + 1, -1],
                "proposal_budget": self.proposals, "tick_budget": self.ticks,
                "oracle": "quorum reference model in lock-step: accept/reject, ordered sends leaving the wallet, signers, threshold, pending approvals, lock, balance; 1<=threshold<=signers<=256"})
     }
